@@ -131,11 +131,25 @@ package tree
 //@   ensures forall(x, Hash, rhtHas(t)[x] ==> x == H(rhtL(t)[x], rhtR(t)[x]))
 //@   ensures result == nil ==> forall(k, 0, len(nodes), rhtHas(t)[nodes[k].Hash] && rhtL(t)[nodes[k].Hash] == nodes[k].Left && rhtR(t)[nodes[k].Hash] == nodes[k].Right)
 
-// rebuilding the frontier from the stored tree (restart, reorg): contract assumed for now (see DESIGN.md)
-//@ func (t *AppendOnlyTree) initCache
+//@ func (t *Tree) getLastRootWithTx
+//@   props C01 C07
 //@   trusted
+//@   sqltext "SELECT * FROM %s ORDER BY block_num DESC, block_position DESC LIMIT 1;"
 //@   requires t != nil
+//@   modifies nothing
+
+// rebuilding the frontier from the stored tree (restart, reorg, after a rollback).
+// Checked: a failed rebuild leaves the in-memory frontier exactly as it was (so it is still either marked
+// invalid or consistent). Assumed (not yet proved): a successful rebuild yields the frontier of the mirrored
+// contract, i.e. the stored tree is the tree whose frontier the ghost state describes.
+//@ func (t *AppendOnlyTree) initCache
+//@   props C01 C07
+//@   requires t != nil && t.Tree != nil
 //@   modifies t.lastIndex, t.lastLeftCache
+//@   ensures[failed-rebuild-leaves-frontier-untouched] result != nil ==> t.lastIndex == old(t.lastIndex) && t.lastLeftCache == old(t.lastLeftCache)
+//@   ensuresassumed result == nil ==> t.lastIndex + 1 == solCount(t) && forall(h, 0, 32, bitAt(uint32(solCount(t)), h) ==> t.lastLeftCache[h] == solBranch(t)[h])
+//@   loop 0 unroll 32
+//@   loop 1 unroll 1
 
 //@ func (t *AppendOnlyTree) AddLeaf$1
 //@   props C07
